@@ -40,3 +40,66 @@ impl Flags {
     }
 }
 } // verus!
+verus! {
+// ------------------------------------------------------------------------------------------------
+// embedded_io: ghost-sink model of `Write` (rule X6).  The sink is modelled by the history of calls made to it:
+// an event log and a count of failed operations.  `write_all` / `flush` are the only operations the library
+// performs; their contracts are ASSUMPTIONS about every sink (trait-level, unverified).
+// ------------------------------------------------------------------------------------------------
+pub mod embedded_io {
+    use vstd::prelude::*;
+    verus! {
+    /// one successful operation on the sink
+    pub enum Ev { W(Seq<u8>), F }
+
+    pub trait Error: core::fmt::Debug {}
+
+    impl Error for core::convert::Infallible {}
+
+    pub trait ErrorType {
+        type Error: Error;
+    }
+
+    pub trait Write: ErrorType {
+        /// successful operations so far, in order
+        spec fn evs(&self) -> Seq<Ev>;
+        /// number of failed operations so far
+        spec fn errs(&self) -> nat;
+
+        /// (not used by the library; implemented by sinks)
+        fn write(&mut self, buf: &[u8]) -> Result<usize, Self::Error>;
+
+        fn write_all(&mut self, buf: &[u8]) -> (r: Result<(), Self::Error>)
+            ensures
+                r is Ok ==> final(self).evs() == old(self).evs().push(Ev::W(buf@)) && final(self).errs() == old(self).errs(),
+                r is Err ==> final(self).errs() == old(self).errs() + 1
+                    && (final(self).evs() == old(self).evs()
+                        || exists|k: int| 0 <= k <= buf@.len() && final(self).evs() == old(self).evs().push(Ev::W(#[trigger] buf@.subrange(0, k)))),
+        ;
+
+        fn flush(&mut self) -> (r: Result<(), Self::Error>)
+            ensures
+                r is Ok ==> final(self).evs() == old(self).evs().push(Ev::F) && final(self).errs() == old(self).errs(),
+                r is Err ==> final(self).evs() == old(self).evs() && final(self).errs() == old(self).errs() + 1,
+        ;
+    }
+    } // verus!
+}
+
+/// all bytes written, in order
+pub open spec fn ev_bytes(evs: Seq<embedded_io::Ev>) -> Seq<u8>
+    decreases evs.len()
+{
+    if evs.len() == 0 { Seq::empty() } else {
+        match evs.last() {
+            embedded_io::Ev::W(b) => ev_bytes(evs.drop_last()) + b,
+            embedded_io::Ev::F => ev_bytes(evs.drop_last()),
+        }
+    }
+}
+
+/// no write after the last flush (C15): the log is empty or ends with a flush
+pub open spec fn all_flushed(evs: Seq<embedded_io::Ev>) -> bool {
+    evs.len() == 0 || evs.last() is F
+}
+} // verus!
